@@ -105,12 +105,16 @@ class Stats:
         if len(self.samples) < 6:
             self.samples.extend(o.samples[: 6 - len(self.samples)])
         for k, v in o.encoded.items():
-            self.encoded[k] = max(self.encoded.get(k, 0), v) if isinstance(v, int) else v
+            if k == "cvc5_cross_checked":
+                self.encoded[k] = self.encoded.get(k, 0) + v
+            else:
+                self.encoded[k] = max(self.encoded.get(k, 0), v) if isinstance(v, int) else v
         for n in o.notes:
             if n not in self.notes and len(self.notes) < 20:
                 self.notes.append(n)
 
 
+CROSS_CHECK = 0            # 0 = off; N = re-decide every query whose AST hash is divisible by N with cvc5
 VIOLATION_SEEN = None      # multiprocessing.Event shared by the workers of one check (set by common.run_check)
 
 
@@ -157,6 +161,17 @@ def solve(assertions, stats=None, label=None, timeout_ms=QUERY_TIMEOUT_MS, want_
                 stats.unsat += 1
             return "unsat", None
         raise Inconclusive(f"z3 unknown, cvc5 {r2} for {label}; no model available")
+    if CROSS_CHECK and stats is not None and r in ("sat", "unsat") and (goal.hash() % CROSS_CHECK) == 0 and dt < 20:
+        # thorough tier: a deterministic sample of queries is re-decided by cvc5 (independent solver)
+        try:
+            txt = s.to_smt2()
+            r2 = cvc5_check(txt, 60_000) if len(txt) < 3_000_000 else None
+        except Exception:
+            r2 = None
+        if r2 is not None:
+            stats.encoded["cvc5_cross_checked"] = stats.encoded.get("cvc5_cross_checked", 0) + 1
+            if r2 != r:
+                raise Inconclusive(f"z3 says {r}, cvc5 says {r2} for {label}")
     if r == "sat":
         m = s.model()
         # model validation: a QF_BV solver handed a non-bit-vector term can answer nonsense
